@@ -8,7 +8,7 @@
    abstract value [fsn] whose listing ORDER is arbitrary (every theorem
    quantifies over it); special files appear only as [Other] = skipped. *)
 From Coq Require Import List ZArith Bool Permutation Sorted.
-From NT Require Import Sx Rose FsLoad FsLoadProofs FsSaveLoadProofs FsCanonProofs FsVisitProofs.
+From NT Require Import Sx Rose FsLoad FsLoadProofs FsSaveLoadProofs FsCanonProofs FsVisitProofs FsRepr FsReprProofs.
 From NTGen Require Import Generated.
 Import ListNotations.
 Open Scope Z_scope.
@@ -184,6 +184,42 @@ Example C19_mappers_need_entry_ok :
   mk_entry [100] true None (Some (5, 1)) = Some (E [100] true 0 (Some (5, 1))) /\
   deser (ser (E [100] true 0 (Some (5, 1))) []) = Some (E [100] true 0 None).
 Proof. vm_compute. split; reflexivity. Qed.
+
+(* ---- surrounding code: FileSystemEntry.__repr__ (= node.name, what tree.format() prints) ----
+   the date shown for an mtime: [civil_from_days] always yields a valid Gregorian date (month
+   1..12, day within the month, leap years every 4th year except centuries not divisible by
+   400) whose day number ([days_from_civil], the usual closed formula) is the given day *)
+Theorem C19_repr_calendar : forall z : Z,
+  let '(y, m, d) := civil_from_days z in
+  1 <= m <= 12 /\ 1 <= d <= month_len y m /\ days_from_civil y m d = z.
+Proof.
+  intros z. pose proof (civil_valid z) as V. pose proof (days_civil_inverse z) as I.
+  destruct (civil_from_days z) as [[y m] d]. tauto.
+Qed.
+Print Assumptions C19_repr_calendar.
+
+(* the size shown with ',' separators: removing the commas gives sign + decimal digits; a
+   comma stands after every third digit from the right ([group3] works on the reversed digits) *)
+Theorem C19_repr_thousands : forall z : Z,
+  filter not_comma (fmt_thousands z) = (if z <? 0 then [45] else []) ++ dec_text z /\
+  (forall a b c r, r <> [] -> group3 3 (a :: b :: c :: r) = a :: b :: c :: 44 :: group3 3 r) /\
+  (forall l, (length l <= 3)%nat -> group3 3 l = l).
+Proof. intros z. exact (conj (fmt_thousands_digits z) (conj group3_step group3_short)). Qed.
+Print Assumptions C19_repr_thousands.
+
+(* folders are shown as "[name]"; different names are shown differently *)
+Theorem C19_repr_folder : forall (p : Z -> bool) (a b : text),
+  repr_entry p (entry_dir a) = Some ([91] ++ a ++ [93]) /\
+  (repr_entry p (entry_dir a) = repr_entry p (entry_dir b) -> a = b).
+Proof. intros p a b. exact (conj (repr_dir p a) (repr_dir_injective p a b)). Qed.
+Print Assumptions C19_repr_folder.
+
+(* 'file_1.txt', 1,234,567 bytes, 2000-02-29 23:59:59   (951868799 = last second of a leap day) *)
+Example C19_repr_sample :
+  repr_entry (fun _ => false) (entry_file [102; 105; 108; 101; 95; 49; 46; 116; 120; 116] 1234567 (7614950399, 8)) =
+  Some [39; 102; 105; 108; 101; 95; 49; 46; 116; 120; 116; 39; 44; 32; 49; 44; 50; 51; 52; 44; 53; 54; 55; 32; 98; 121; 116; 101; 115; 44; 32;
+        50; 48; 48; 48; 45; 48; 50; 45; 50; 57; 32; 50; 51; 58; 53; 57; 58; 53; 57].
+Proof. vm_compute. reflexivity. Qed.
 
 (* ---- generated fact: FileSystemTree.DEFAULT_KEY_MAP is empty, so save() does not
    shorten "str" to "s" and the size key "s" of the mapper is not renamed on load ---- *)
